@@ -465,7 +465,12 @@ static void runGP(IntReader &r) {
   int margin = marginOf(orig, sideMargin), maxSize = maxSizeOf(orig, binSize);
   long long cap = 0;
   if (posCell && maxSize >= 1) cap = DensityGrid::fromIspdCircuit(orig, binSize, sideMargin).totalCapacity();
-  if (narrow || !posCell || cap <= 0 || maxSize < 1) { printf("SKIP outside the domain narrow=%d posCell=%d cap=%lld maxSize=%d\n", (int)narrow, (int)posCell, cap, maxSize); return; }
+  if (narrow || !posCell || maxSize < 1) { printf("SKIP outside the domain narrow=%d posCell=%d cap=%lld maxSize=%d\n", (int)narrow, (int)posCell, cap, maxSize); return; }
+  // cap <= 0 (fixed cells / obstructions, or the side margin on rows cut into short pieces, leave no free site in any bin) is INSIDE the
+  // property's quantifier ("any fixed cells and obstructions", every row at least four row-heights wide): the public entry point is run
+  // and judged (completion without error, exposed centres, finite coordinates, frame); only the private replica (b) and the model ties
+  // are left out, their hypothesis being a non-empty clipped row set
+  bool nocap = cap <= 0;
   (void)rh;
   // (a) the public entry point with a recording callback
   Circuit ca = orig; Recorder ra; ra.c = &ca; ra.area = ca.computePlacementArea(); ra.slackX2 = margin >= 1 ? 0 : 1; ra.stopOnOverflow = true;
@@ -485,6 +490,7 @@ static void runGP(IntReader &r) {
   printf(" /"); for (int i = 0; i < ca.nbCells(); ++i) printf(" %d %d", orig.placedWidth(i), orig.placedHeight(i));
   fflush(stdout);
   if (sa == "STOPPED") { printf(" | STOPPED\n"); return; }
+  if (nocap) { printf(" | NOCAP %lld\n", cap); return; }
   // (b) the same steps as GlobalPlacer::place, with access to the private state
   Circuit cb = orig; Recorder rb; rb.c = &cb; rb.area = ra.area; rb.slackX2 = ra.slackX2;
   std::string sb = "OK";
